@@ -276,6 +276,57 @@ func (c37Runner) Step(t []string, o *Oracle) string {
 		total += len(tx.Bytes())
 	}
 	o.Check(total == size, "candidate-size-sum", "reported size %d, sum %d", size, total)
+
+	// ---- the property itself, with the harness' own accounting (independent of the model and
+	// of PreValidate): at its position every selected tx must be affordable by its sender given
+	// the true effect of the ones selected before it (a self-transfer nets to -fee).
+	specOf := map[int]c37Spec{}
+	for _, sp := range specs {
+		if _, ok := specOf[sp.id]; !ok {
+			specOf[sp.id] = sp
+		}
+	}
+	own := make([]int64, c37Accounts)
+	copy(own, bal)
+	selfBefore := map[int]bool{}
+	var order []string
+	for _, sp := range specs {
+		order = append(order, fmt.Sprintf("%d:%d->%d v%d s%d", sp.id, sp.from, sp.to, sp.value, sp.stepLimit))
+	}
+	for pos, tx := range txs {
+		sp := specOf[nonce[string(tx.ID())]]
+		cost := sp.value + sp.stepLimit*price
+		o.Check(sp.stepLimit >= minStep, "candidate-below-minimum-step", "tx %d at position %d: stepLimit %d < minStep %d", sp.id, pos, sp.stepLimit, minStep)
+		key := "candidate-unaffordable-at-its-position"
+		if selfBefore[sp.from] {
+			key = "candidate-unaffordable-after-self-transfer"
+		}
+		o.Check(own[sp.from] >= cost, key,
+			"selected tx %d (position %d, %d->%d value %d fee %d) needs %d but sender %d has %d left; balances %v price %d pool [%s]",
+			sp.id, pos, sp.from, sp.to, sp.value, sp.stepLimit*price, cost, sp.from, own[sp.from], bal, price, strings.Join(order, ", "))
+		own[sp.from] -= cost
+		own[sp.to] += sp.value
+		if sp.from == sp.to && sp.value > 0 {
+			selfBefore[sp.from] = true
+			o.Count("selected-self-transfer")
+		}
+		if pos > 0 {
+			o.Count("selected-after-others")
+		}
+	}
+	// the balances the validator tracked while re-validating the list (wc2) are the true ones
+	if verr == nil {
+		for a := 0; a < c37Accounts; a++ {
+			got := ws.GetAccountState(c37Wallet(a).Address().ID()).GetBalance()
+			key := "cumulative-balance-mismatch"
+			if selfBefore[a] {
+				key = "cumulative-balance-mismatch-after-self-transfer"
+			}
+			o.Check(got.Cmp(big.NewInt(own[a])) == 0, key,
+				"account %d: tracked balance after the candidates %s, true balance %d; balances %v price %d pool [%s]",
+				a, got, own[a], bal, price, strings.Join(order, ", "))
+		}
+	}
 	return sb.String()
 }
 
@@ -334,8 +385,41 @@ func c37Gen(g *Gen) {
 			if g.Intn(2) == 0 {
 				from = g.Intn(2) // concentrate spending on few accounts: cumulative exhaustion
 			}
-			specs = append(specs, c37Spec{id: k + 1, ts: ts, from: from, to: g.Intn(c37Accounts),
+			to := g.Intn(c37Accounts)
+			switch g.Intn(6) {
+			case 0:
+				to = from // self-transfer
+			case 1, 2:
+				to = g.Intn(2) // to an account that is itself a busy sender
+			}
+			specs = append(specs, c37Spec{id: k + 1, ts: ts, from: from, to: to,
 				value: int64(g.Pick(0, 1, 10, 50, 100, 200, g.Intn(120))), stepLimit: int64(g.Pick(0, 4, 5, 9, 10, 20))})
+		}
+		if g.Intn(6) == 0 {
+			// self-transfer, then a spend of the same sender around what is really left
+			// (and around balance+value), then a transfer back from the receiver
+			sdr := g.Intn(2)
+			sl := int64(g.Pick(0, 5, 10))
+			if sl < minStep {
+				sl = minStep
+			}
+			B := int64(g.Pick(100, 200, 500, 1000))
+			bal[sdr] = B
+			v := B/2 + int64(g.Intn(int(B/2))) - sl*price
+			if v < 1 {
+				v = 1
+			}
+			left := B - sl*price
+			next := g.Pick(int(left-sl*price)-1, int(left-sl*price), int(left-sl*price)+1, int(left), int(left+v/2), int(B+v-sl*price), int(B+v))
+			if next < 0 {
+				next = 0
+			}
+			base := len(specs)
+			t0 := bts - th + 1 + int64(g.Intn(int(th)))
+			specs = append(specs,
+				c37Spec{id: base + 1, ts: t0, from: sdr, to: sdr, value: v, stepLimit: sl},
+				c37Spec{id: base + 2, ts: t0 + 1 + int64(g.Intn(5)), from: sdr, to: 1 - sdr, value: int64(next), stepLimit: sl},
+				c37Spec{id: base + 3, ts: t0 + 7, from: 1 - sdr, to: sdr, value: int64(g.Intn(50)), stepLimit: sl})
 		}
 		var fin []int
 		for _, s := range specs {
